@@ -24,6 +24,9 @@ def who_may_write(ctx, rid):
         # closures inherit their root's entry
         root = c.fn.root or owner
         ent = allowed.get(owner) or allowed.get(root)
+        if ent is None:
+            # a private helper that only ever runs on behalf of one allowed function (every caller chain ends in it)
+            ent = _sole_allowed_ancestor(p, root, allowed)
         ok = ent is not None and api in ent["apis"]
         r.instance(rid, c.key(), "allowed" if ok else "violation", c.loc(),
                    ent["reason"] if ok else "not in tables/writers.toml")
@@ -38,6 +41,35 @@ def who_may_write(ctx, rid):
                         "%s calls the file-system-mutating API %s; only the two file emitters (and the config dump of the "
                         "binary) may write" % (short(owner), api), [c.loc()] + (chain or []))
     return calls
+
+
+def _sole_allowed_ancestor(p, fid, allowed, depth=4):
+    """table entry E such that fid is effectively private and every chain of callers of fid (≤ depth) ends in E's function"""
+    f = p.fns.get(fid)
+    if f is None or f.vis == "pub":
+        return None
+    cs = p.callers()
+    found = set()
+    seen = set()
+    work = [(fid, 0)]
+    while work:
+        x, d = work.pop()
+        if x in seen:
+            continue
+        seen.add(x)
+        callers = {src for (src, kind, c) in cs.get(x, [])}
+        if not callers or d >= depth:
+            return None
+        for src in callers:
+            g = p.fns.get(src)
+            rootg = (g.root or src) if g is not None else src
+            if rootg in allowed:
+                found.add(rootg)
+            elif g is not None and g.vis != "pub":
+                work.append((rootg, d + 1))
+            else:
+                return None
+    return allowed[next(iter(found))] if len(found) == 1 else None
 
 
 def emit_reachers(p):
@@ -136,12 +168,49 @@ def run(ctx):
     r.rule("R05-e", "the content operand of every fs::write in the emitters derives from the formatted_text field of "
                     "the FormattedFile parameter and from nothing else")
     n = 0
+    benign = ("as_bytes", "as_ref", "deref", "as_str", "borrow")
+
+    def content_ok(f, op):
+        """(ok, description): op derives from FormattedFile.formatted_text and nothing else (in emitter f)"""
+        if op[0] == "k":
+            return False, "a constant"
+        d = f.derived_from(op[1][0])
+        fields = {x[2] for x in d["fields"] if x[0] and x[0].endswith("FormattedFile")}
+        for e in op[1][1]:
+            if isinstance(e, (list, tuple)) and e[0] == "f" and e[2] and e[2].endswith("FormattedFile"):
+                fields.add(e[4])
+        other_calls = [cc for cc in d["calls"] if not any(cc.name.endswith("::" + b_) for b_ in benign)]
+        ok = fields == {"formatted_text"} and not other_calls and not d["consts"]
+        return ok, "fields %s, calls %s, constants %d" % (sorted(fields), [short(x.name) for x in other_calls], len(d["consts"]))
+
     for fid in (FILES_EMIT, BACKUP_EMIT):
         f = p.fns.get(fid)
         if f is None:
             r.undecidable("R05-e", "%s not found" % fid)
             continue
         for c in f.calls():
+            h = p.fns.get(c.resolved or "")
+            if h is not None and h.crate == f.crate and h is not f and h.vis != "pub":
+                # a private helper doing the write on the emitter's behalf: the written operand must be one of its
+                # parameters, and the emitter must pass formatted_text for it
+                for hc in h.calls():
+                    if effects.strip_generics(hc.name) != "std::fs::write":
+                        continue
+                    n += 1
+                    op = hc.args[1]
+                    okh = False
+                    desc = "not a parameter of the helper"
+                    if op[0] != "k":
+                        dh = h.derived_from(op[1][0])
+                        others = [cc for cc in dh["calls"] if not any(cc.name.endswith("::" + b_) for b_ in benign)]
+                        if len(dh["args"]) == 1 and not others and not dh["consts"]:
+                            k = next(iter(dh["args"]))
+                            okh, desc = content_ok(f, c.args[k - 1])
+                    r.instance("R05-e", hc.key(), "ok" if okh else "violation", hc.loc(), desc)
+                    if not okh:
+                        r.violation("R05-e", "%s: written content" % hc.key(),
+                                    "the bytes written by helper %s derive from %s — expected formatted_text only" % (short(h.id), desc),
+                                    [hc.loc()])
             if effects.strip_generics(c.name) == "std::fs::write":
                 n += 1
                 op = c.args[1]
